@@ -42,6 +42,9 @@ func vC13Require(st *verifkit.Stats, seen *vC13Seen, cases int, minCases int, re
 	if cases < minCases {
 		return
 	}
+	if x := os.Getenv("VERIF_C13_REQUIRE_EXTRA"); x != "" { // lets the exit path itself be tested
+		required = append(append([]string(nil), required...), x)
+	}
 	var missing []string
 	for _, r := range required {
 		if seen.m[r] == 0 {
